@@ -480,6 +480,29 @@ func (c *core) defaultClusters(x []float32) map[int]bool {
 	return cl
 }
 
+// exhaustive reports whether the search parameters ask for every cluster of a
+// clustered index to be probed ({"ivf_nprobe_pct": 100}, the spelling of the
+// real engine's IVF search parameters): the search is then an exact one.
+func exhaustive(params json.RawMessage) bool {
+	if len(params) == 0 {
+		return false
+	}
+	var p struct {
+		Pct float64 `json:"ivf_nprobe_pct"`
+	}
+	if err := json.Unmarshal(params, &p); err != nil {
+		return false
+	}
+	return p.Pct >= 100
+}
+
+func (c *core) clustersFor(x []float32, params json.RawMessage) map[int]bool {
+	if exhaustive(params) {
+		return nil
+	}
+	return c.defaultClusters(x)
+}
+
 // SearchWithoutIDs: k nearest vectors whose id is not in exclude.
 func (i *IndexImpl) SearchWithoutIDs(x []float32, k int64, exclude []int64, params json.RawMessage) ([]float32, []int64, error) {
 	done, err := i.enter("SearchWithoutIDs")
@@ -498,7 +521,7 @@ func (i *IndexImpl) SearchWithoutIDs(x []float32, k int64, exclude []int64, para
 		}
 		pass = func(id int64) bool { return !ex[id] }
 	}
-	return i.c.search(x, k, pass, i.c.defaultClusters(x))
+	return i.c.search(x, k, pass, i.c.clustersFor(x, params))
 }
 
 // SearchWithIDs: k nearest vectors among include.
@@ -515,7 +538,7 @@ func (i *IndexImpl) SearchWithIDs(x []float32, k int64, include []int64, params 
 	for _, id := range include {
 		in[id] = true
 	}
-	return i.c.search(x, k, func(id int64) bool { return in[id] }, i.c.defaultClusters(x))
+	return i.c.search(x, k, func(id int64) bool { return in[id] }, i.c.clustersFor(x, params))
 }
 
 // ObtainClusterVectorCountsFromIVFIndex counts the given ids per cluster.
@@ -598,7 +621,7 @@ func (i *IndexImpl) SearchClustersFromIVFIndex(selector Selector, eligibleCentro
 		return nil, nil, errors.New("fakefaiss: selector used after Delete")
 	}
 	s.mu.Unlock()
-	if minEligibleCentroids > len(eligibleCentroidIDs) {
+	if minEligibleCentroids > len(eligibleCentroidIDs) || exhaustive(params) {
 		minEligibleCentroids = len(eligibleCentroidIDs)
 	}
 	cl := map[int]bool{}
